@@ -49,7 +49,7 @@ def bases(ctx, n, salt="base"):
 
 
 def nbases(ctx):
-    return 40 if ctx.tier == "quick" else 400
+    return 40 if ctx.tier == "quick" else 200
 
 
 def render_plant(t, p):
@@ -121,7 +121,7 @@ def tie(ctx):
     bs = bases(ctx, nbases(ctx))
     stats = collections.Counter()
     r = vlib.rng(ctx.seed, "c03-tie")
-    per = 60 if ctx.tier == "quick" else 120
+    per = 60 if ctx.tier == "quick" else 80
     for bi, (t, g) in enumerate(bs):
         cases.append(("base%d" % bi, tg.case_line(tg.render(t))))
         for k, v in g.stats.items():
@@ -143,60 +143,64 @@ def tie_run(cases):
 
 # ---- oracle on the real implementation ------------------------------------------------------------
 
-def sweep(ctx, plants_of, pid, classify_fn, nb=None, demand_type_error=False):
+def sweep(ctx, plants_of, pid, classify_fn, nb=None, demand_type_error=False, group=8):
     """plant every offending construct at every position of every base program; compile with the real
-    compiler; -> (violations [(class or None, kind, info, source, verdict)], distribution)"""
+    compiler; -> (violations [(class or None, kind, info, source, verdict)], distribution).  The base programs are
+    processed in groups (the rendered plants of one group are a few hundred megabytes of case text)."""
     bs = bases(ctx, nb or nbases(ctx))
-    lines, meta = [], []
     dist = collections.Counter()
-    base_lines = [tg.case_line(tg.render(t)) for t, _ in bs]
-    base_res = vlib.harness("compileb", base_lines)
+    base_res = vlib.harness("compileb", [tg.case_line(tg.render(t)) for t, _ in bs])
     good = []
     for (t, g), l in zip(bs, base_res):
         if l.startswith("OK"):
             good.append((t, g))
         else:
             dist["base rejected (generator bug)"] += 1
-    sizes = []
-    for bi, (t, g) in enumerate(good):
-        sizes.append(len(tg.render(t).split("\n")))
-        for p in plants_of(t, g, vlib.rng(ctx.seed, "%s-plants%d" % (pid, bi))):
-            lines.append(tg.case_line(render_plant(t, p)))
-            meta.append((bi, p))
-    res = vlib.harness("compileb", lines)
+    sizes = [len(tg.render(t).split("\n")) for t, _ in good]
     viol = []
     kinds = collections.Counter()
     pos = collections.Counter()
     errs = collections.Counter()
-    for (bi, p), l in zip(meta, res):
-        k, sk, sid, info, payload = p
-        d = tg.info_dict(info)
-        kinds[k] += 1
-        pos["%s %s" % (sk, d["where"])] += 1
-        pos["path depth %d" % len([x for x in d.get("path", "").split("/") if x])] += 1
-        if d.get("pure") == "1":
-            pos["inside pure function"] += 1
-        if "/closure" in d.get("path", ""):
-            pos["inside closure"] += 1
-        if "/loop" in d.get("path", ""):
-            pos["inside loop"] += 1
-        if "/branch" in d.get("path", ""):
-            pos["inside branch"] += 1
-        v = tg.real_verdict(l)
-        bad = None
-        if v[0] != "ERR":
-            bad = "accepted" if v[0] == "OK" else v[0]
-        elif v[4] < 1 or v[1] == "EMPTY":
-            bad = "Err without an error"
-        elif v[5] not in (0, None):
-            bad = "%d bytes of Lua written before the error" % v[5]
-        elif demand_type_error and not v[1].startswith("Type:"):
-            bad = "rejected, but not with a type error (%s)" % v[1]
-        else:
-            errs[v[1]] += 1
-        if bad:
-            viol.append((classify_fn(k, sk, info), k, info, render_plant(good[bi][0], p), bad))
-    dist.update({"base_programs": len(good), "plants": len(lines),
+    nplants = 0
+    for g0 in range(0, len(good), group):
+        lines, meta = [], []
+        for bi in range(g0, min(g0 + group, len(good))):
+            t, g = good[bi]
+            for p in plants_of(t, g, vlib.rng(ctx.seed, "%s-plants%d" % (pid, bi))):
+                lines.append(tg.case_line(render_plant(t, p)))
+                meta.append((bi, p))
+        nplants += len(lines)
+        res = vlib.harness("compileb", lines)
+        del lines
+        for (bi, p), l in zip(meta, res):
+            k, sk, sid, info, payload = p
+            d = tg.info_dict(info)
+            kinds[k] += 1
+            pos["%s %s" % (sk, d["where"])] += 1
+            pos["path depth %d" % len([x for x in d.get("path", "").split("/") if x])] += 1
+            if d.get("pure") == "1":
+                pos["inside pure function"] += 1
+            if "/closure" in d.get("path", ""):
+                pos["inside closure"] += 1
+            if "/loop" in d.get("path", ""):
+                pos["inside loop"] += 1
+            if "/branch" in d.get("path", ""):
+                pos["inside branch"] += 1
+            v = tg.real_verdict(l)
+            bad = None
+            if v[0] != "ERR":
+                bad = "accepted" if v[0] == "OK" else v[0]
+            elif v[4] < 1 or v[1] == "EMPTY":
+                bad = "Err without an error"
+            elif v[5] not in (0, None):
+                bad = "%d bytes of Lua written before the error" % v[5]
+            elif demand_type_error and not v[1].startswith("Type:"):
+                bad = "rejected, but not with a type error (%s)" % v[1]
+            else:
+                errs[v[1]] += 1
+            if bad:
+                viol.append((classify_fn(k, sk, info), k, info, render_plant(good[bi][0], p), bad))
+    dist.update({"base_programs": len(good), "plants": nplants,
                  "base_lines_min_avg_max": [min(sizes or [0]), sum(sizes) // max(1, len(sizes)), max(sizes or [0])]})
     return viol, {"oracle": dict(dist), "kinds": dict(kinds), "positions": dict(pos), "error_kinds": dict(errs)}
 
